@@ -1,6 +1,7 @@
 package main
 
 import (
+	"encoding/json"
 	"fmt"
 
 	clip "github.com/bolom009/go-clipper2"
@@ -84,6 +85,26 @@ func c01Check(o *Oracle, c boolCase) (ok bool, detail string, resp string) {
 	return ok, detail, resp
 }
 
+func init() {
+	stages["c01-search"] = func(ctx *Ctx, cnt func(q, t int) int, replay string) Result {
+		return searchC01(ctx, cnt(3000, 200000))
+	}
+	replays["c01-search"] = func(ctx *Ctx, o *Oracle, raw json.RawMessage) *Violation {
+		var c boolCase
+		if err := json.Unmarshal(raw, &c); err != nil {
+			fatal("replay case: %v", err)
+		}
+		if ok, detail, resp := c01Check(o, c); !ok {
+			sig := sigOf(c)
+			if s := siteOf(func() { runBool(c) }, resp, "splitDiscard"); s != "" {
+				sig = s
+			}
+			return &Violation{Property: "C01", Kind: "region-mismatch", Signature: sig, Detail: detail, Case: c}
+		}
+		return nil
+	}
+}
+
 func searchC01(ctx *Ctx, n int) Result {
 	col := NewCollector("C01", "search", "random closed subject/clip sets (grid polygons, stars, rectangles, staircases, nested rings, decorated with duplicates/collinear points/spikes) × 4 clip types × 4 fill rules × {BooleanOpPaths64, engine object, wrapper}; non-trivial = the solution is non-empty and the oracle judged ≥ 2 faces; distinct by input hash")
 	parallelFor(ctx, n, true, col, func(o *Oracle, i int) {
@@ -97,7 +118,7 @@ func searchC01(ctx *Ctx, n int) Result {
 		col.AddN("faces_bad_in_band", statOf(resp, "badInBand"))
 		col.AddN("oracle_crosschecks", statOf(resp, "cross"))
 		col.Sample(c)
-		if !ok {
+		if !ok && !col.KindFull("region-mismatch") {
 			// shrink
 			sets := []clip.Paths64{c.Subject, c.Clip}
 			hadClip := c.Clip != nil
@@ -117,8 +138,12 @@ func searchC01(ctx *Ctx, n int) Result {
 			if hadClip {
 				c.Clip = sh[1]
 			}
-			_, detail, _ = c01Check(o, c)
-			col.Violate(Violation{Property: "C01", Kind: "region-mismatch", Signature: sigOf(c), Detail: detail, Case: c, Stream: "c01", Index: i, Seed: ctx.Seed})
+			_, detail, resp = c01Check(o, c)
+			sig := sigOf(c)
+			if s := siteOf(func() { runBool(c) }, resp, "splitDiscard"); s != "" {
+				sig = s
+			}
+			col.Violate(Violation{Property: "C01", Kind: "region-mismatch", Signature: sig, Detail: detail, Case: c, Stream: "c01", Index: i, Seed: ctx.Seed})
 		}
 	})
 	return col.Finish()
